@@ -121,3 +121,30 @@ Print Assumptions C13_skip_is_read.
 Theorem C13_skip_short : forall st d k, 0 < k -> (dr_skip st d k = Err <-> dr_read st d k = Err).
 Proof. exact dr_skip_err_iff. Qed.
 Print Assumptions C13_skip_short.
+
+(* ---- a writer that reports its failure in the call that reaches its budget, even when that
+        call's slice was accepted completely ([ew_write_all_eager], Extras.v; empty slices are
+        not passed to the writer): still a prefix, the counter still exact; the encoder
+        succeeds iff the encoding is strictly shorter than the budget (or empty) ---- *)
+Theorem C13_writer_prefix_eager : forall b chunks w ok,
+  ew_write_all_eager (mkW (Some b) [] 0) chunks = (w, ok) ->
+  w_accepted w = firstn (nat_of b) (concat chunks) /\
+  w_n w = N.min b (lenN (concat chunks)) /\
+  (ok = true <-> (lenN (concat chunks) < b \/ lenN (concat chunks) = 0)).
+Proof. exact writer_prefix_eager. Qed.
+Print Assumptions C13_writer_prefix_eager.
+
+(* ---- at decoder level: a stream that stops before the declared scope never yields a value.
+   [view_deserialize_scoped t delivered scope] is the view decoder run with scope [scope] on a
+   stream that only delivers [delivered] (whether it then ends or fails makes no difference to
+   the reader model: the read that needs the missing bytes fails). ---- *)
+From Ztyp Require Import Types View Repr DecodeProofs RouteProofs.
+
+Theorem C13_short_stream_decode :
+  forall (zh : nat -> chunk) t delivered scope,
+    wf_ty t = true -> small_params t = true -> sizes_ok t = true ->
+    scope < 2 ^ 32 -> leaf_ok t scope ->
+    lenN delivered < scope ->
+    view_deserialize_scoped zh t delivered scope = Err.
+Proof. exact short_stream_decode. Qed.
+Print Assumptions C13_short_stream_decode.
